@@ -13,7 +13,8 @@ PY
 coq_makefile -f _CoqProject -o Makefile
 timeout 3000 make -k -j16 || echo "setup: some Coq targets failed (reported per property by ./check)"
 cd ..
-for d in ocaml/drv_c*.ml; do
+for d in ocaml/drv_*.ml; do
+  [ "$d" = ocaml/drv_common.ml ] && continue
   n=$(basename "$d" .ml); n=${n#drv_}
   [ -f ocaml/gen/ex_$n.ml ] || continue
   cat ocaml/gen/ex_$n.ml ocaml/drv_common.ml "$d" > ocaml/gen/all_$n.ml
